@@ -41,6 +41,7 @@ def outcomeClass {α} : Outcome α → String
 def judgeRead (cls : String) (ctx : String) (ty : GoType) (schema : Schema) (bytes : Bytes) (dst : GoVal) (sibs : Bool) (impl : Sexp) : Verdict :=
   let icls := implClass impl
   if icls == "clobber" then .oracle s!"bytes outside the destination struct were modified (canary clobbered): {impl}" else
+  if impl.hasAtom "invalid-bool" then .oracle s!"a bool destination holds a byte other than 0 or 1 - not a value of the field's type: {impl}" else
   if icls == "overrun" then .oracle s!"a decoded slice is longer than its capacity: items were stored past the end of the backing array (len cap): {impl}" else
   match buildCodec regLib 200 schema (some ty) false with
   | .error e =>
